@@ -10,6 +10,11 @@ def opsCli (op : String) (args : List SExp) : Option String :=
       let n ← n.nat?
       let rows := describeRows (List.range n)
       pure ("rows" ++ String.join (rows.map (fun r => match r with | some i => s!" {i}" | none => " ...")))
+  | "rowsdup", [n] => do
+      -- a file of n byte-identical packets: n packets all the same are still n packets (answered by position)
+      let n ← n.nat?
+      let rows := describeRows (List.range n)
+      pure ("rows" ++ String.join (rows.map (fun r => match r with | some i => s!" {i}" | none => " ...")))
   | "index", [n, i] => do
       let n ← n.nat?; let i ← i.int?
       pure (match selectPacket (List.range n) i with
